@@ -3,7 +3,9 @@
 #include "harness.h"
 #include <sstream>
 #include <cstring>
+#include "bitserializer/bit_serializer.h"
 #include "bitserializer/msgpack_archive.h"
+#include "bitserializer/types/std/tuple.h"
 
 using namespace vh;
 using namespace BitSerializer;
@@ -22,9 +24,9 @@ void encodeTok(std::string& o, const std::string& t) {
 	const std::string body = t.substr(1);
 	switch (t[0]) {
 	case 'i': {
-		const long long v = std::stoll(body);
+		const long long v = body[0] == '-' ? std::stoll(body) : 0;
 		if (v >= 0) {
-			const auto u = static_cast<uint64_t>(v);
+			const auto u = static_cast<uint64_t>(std::stoull(body));
 			if (u < 128) o.push_back(static_cast<char>(u));
 			else if (u < 256) { o.push_back('\xcc'); be(o, u, 1); }
 			else if (u < 65536) { o.push_back('\xcd'); be(o, u, 2); }
@@ -130,22 +132,28 @@ void Run::objectLoop(TObj& scope) {
 			const auto eq = r.find('=');
 			const std::string key = r.substr(1, eq - 1), ty = r.substr(eq + 1);
 			if (key[0] == 's') scalar(scope, ty, parseBytes(key.substr(1)));
+			else if (key[0] == 'j') { const int32_t k = static_cast<int32_t>(std::stol(key.substr(1))); scalar(scope, ty, k); }
+			else if (key[0] == 'u') { const uint64_t k = std::stoull(key.substr(1)); scalar(scope, ty, k); }
 			else { const int64_t k = std::stoll(key.substr(1)); scalar(scope, ty, k); }
 		}
 		else if (r[0] == 'A' || r[0] == 'O') {
 			const std::string key = r.substr(1);
-			const bool isStr = key[0] == 's';
-			const std::string sk = isStr ? parseBytes(key.substr(1)) : std::string();
-			const int64_t ik = isStr ? 0 : std::stoll(key.substr(1));
-			if (r[0] == 'A') {
-				auto child = isStr ? scope.OpenArrayScope(sk, 0) : scope.OpenArrayScope(ik, 0);
-				if (child) { out.push_back("P" + std::to_string(child->GetEstimatedSize())); arrayLoop(*child); child.reset(); out.push_back("C"); }
-				else out.push_back("F");
-			} else {
-				auto child = isStr ? scope.OpenObjectScope(sk, 0) : scope.OpenObjectScope(ik, 0);
-				if (child) { out.push_back("P" + std::to_string(child->GetEstimatedSize())); objectLoop(*child); child.reset(); out.push_back("C"); }
-				else out.push_back("F");
-			}
+			const bool arr = r[0] == 'A';
+			auto open = [&](const auto& k) {
+				if (arr) {
+					auto child = scope.OpenArrayScope(k, 0);
+					if (child) { out.push_back("P" + std::to_string(child->GetEstimatedSize())); arrayLoop(*child); child.reset(); out.push_back("C"); }
+					else out.push_back("F");
+				} else {
+					auto child = scope.OpenObjectScope(k, 0);
+					if (child) { out.push_back("P" + std::to_string(child->GetEstimatedSize())); objectLoop(*child); child.reset(); out.push_back("C"); }
+					else out.push_back("F");
+				}
+			};
+			if (key[0] == 's') open(parseBytes(key.substr(1)));
+			else if (key[0] == 'j') open(static_cast<int32_t>(std::stol(key.substr(1))));
+			else if (key[0] == 'u') open(static_cast<uint64_t>(std::stoull(key.substr(1))));
+			else open(static_cast<int64_t>(std::stoll(key.substr(1))));
 		}
 		else throw BadOp("req in object");
 	}
@@ -195,6 +203,70 @@ Register s1("mp.scope", [](const Tokens& t) -> std::string {
 	std::string res;
 	for (size_t k = 0; k < run.out.size(); ++k) { if (k) res.push_back(';'); res += run.out[k]; }
 	return res.empty() ? "-" : res;
+});
+
+// mp.tuple: the real LoadObject<MsgPackArchive> into std::tuple<int64,string,int64,bool> (types/std/tuple.h).
+// Loaded twice with two different sets of prior values: an element counts as loaded iff both runs end with the same value.
+Register s2("mp.tuple", [](const Tokens& t) -> std::string {
+	if (t.size() != 4) throw BadOp("arity");
+	SerializationOptions options;
+	options.mismatchedTypesPolicy = t[2] == "skip" ? MismatchedTypesPolicy::Skip : MismatchedTypesPolicy::ThrowError;
+	options.overflowNumberPolicy = OverflowNumberPolicy::ThrowError;
+	std::string doc;
+	{
+		std::istringstream is(t[3]);
+		std::string tok;
+		while (std::getline(is, tok, ',')) encodeTok(doc, tok);
+	}
+	using Tup = std::tuple<int64_t, std::string, int64_t, bool>;
+	Tup a{ 0x5A5A5A5A5ALL, "\x01prior-A", -0x5A5A5A5A5ALL, false }, b{ 0x3C3C3C3C3CLL, "\x02prior-B", -0x3C3C3C3C3CLL, true };
+	try {
+		if (t[1] == "mem") { BitSerializer::LoadObject<BitSerializer::MsgPack::MsgPackArchive>(a, doc, options); BitSerializer::LoadObject<BitSerializer::MsgPack::MsgPackArchive>(b, doc, options); }
+		else {
+			std::istringstream s1(doc), s2(doc);
+			BitSerializer::LoadObject<BitSerializer::MsgPack::MsgPackArchive>(a, s1, options); BitSerializer::LoadObject<BitSerializer::MsgPack::MsgPackArchive>(b, s2, options);
+		}
+	}
+	catch (const std::exception& e) { return "E" + describeException(e); }
+	std::string res;
+	res += std::get<0>(a) == std::get<0>(b) ? "Ti" + std::to_string(std::get<0>(a)) : "F";
+	res += ";";
+	res += std::get<1>(a) == std::get<1>(b) ? "Ts" + hexBytes(std::get<1>(a)) : "F";
+	res += ";";
+	res += std::get<2>(a) == std::get<2>(b) ? "Ti" + std::to_string(std::get<2>(a)) : "F";
+	res += ";";
+	res += std::get<3>(a) == std::get<3>(b) ? (std::get<3>(a) ? "Tt" : "Tf") : "F";
+	return res;
+});
+
+// mp.keyeq <u|s> <stored> <bits> <s|u> <value>: CVariableKey::operator== on the real class
+Register s3("mp.keyeq", [](const Tokens& t) -> std::string {
+	if (t.size() != 6) throw BadOp("arity");
+	MP::MsgPackVariableKey key;
+	if (t[1] == "u") key.GetValueRef<uint64_t>() = std::stoull(t[2]); else key.GetValueRef<int64_t>() = std::stoll(t[2]);
+	const int bits = std::stoi(t[3]);
+	const bool sg = t[4] == "s";
+	bool r;
+	if (sg) {
+		const long long v = std::stoll(t[5]);
+		switch (bits) {
+		case 8: r = key == static_cast<int8_t>(v); break;
+		case 16: r = key == static_cast<int16_t>(v); break;
+		case 32: r = key == static_cast<int32_t>(v); break;
+		case 64: r = key == static_cast<int64_t>(v); break;
+		default: throw BadOp("bits");
+		}
+	} else {
+		const unsigned long long v = std::stoull(t[5]);
+		switch (bits) {
+		case 8: r = key == static_cast<uint8_t>(v); break;
+		case 16: r = key == static_cast<uint16_t>(v); break;
+		case 32: r = key == static_cast<uint32_t>(v); break;
+		case 64: r = key == static_cast<uint64_t>(v); break;
+		default: throw BadOp("bits");
+		}
+	}
+	return r ? "t" : "f";
 });
 
 } // namespace
